@@ -348,9 +348,10 @@ func (c *c16ctx) createNative() (scenario, int64) {
 	// ---- records that are serialised from Go maps, each written with several entries --------------------------------
 	// ripple (223) and ont (3) side chains
 	rex := &scm.RippleExtraInfo{Operator: owner.Address, Sequence: 1, Quorum: 2, SignerNum: 3, Pks: [][]byte{{1}, {2}, {3}}, ReserveAmount: big.NewInt(20000000)}
-	add("sc2:register-ripple+ont", true, "", "ok", regSC(223, utils.RIPPLE_ROUTER, "ripple", ser(rex.Serialization)), regSC(3, utils.ONT_ROUTER, "ont", nil))
+	add("sc2:register-ripple+ont+eth2", true, "", "ok", regSC(223, utils.RIPPLE_ROUTER, "ripple", ser(rex.Serialization)), regSC(3, utils.ONT_ROUTER, "ont", nil),
+		regSC(102, utils.ETH_ROUTER, "eth-london", nil))
 	var ap2a, ap2b []*types.Transaction
-	for _, id := range []uint64{223, 3} {
+	for _, id := range []uint64{223, 3, 102} {
 		for i, a := range accts[:3] {
 			args := ser(func(s *common.ZeroCopySink) { (&scm.ChainidParam{Chainid: id, Address: a.Address}).Serialization(s) })
 			t := n.tx(utils.SideChainManagerContractAddress, scm.APPROVE_REGISTER_SIDE_CHAIN, args, a)
@@ -361,8 +362,8 @@ func (c *c16ctx) createNative() (scenario, int64) {
 			}
 		}
 	}
-	add("sc2:approve-x4", true, "", "ok", ap2a...)
-	add("sc2:approve-final-x2", true, "", "ok", ap2b...)
+	add("sc2:approve-x6", true, "", "ok", ap2a...)
+	add("sc2:approve-final-x3", true, "", "ok", ap2b...)
 	// AssetBind: asset map and lock-proxy map with six entries, then a second registration that merges three more
 	asset := func(targets ...uint64) *types.Transaction {
 		p := &scm.RegisterAssetParam{OperatorAddress: owner.Address, ChainId: 223, AssetMap: map[uint64][]byte{}, LockProxyMap: map[uint64][]byte{}}
@@ -405,6 +406,8 @@ func (c *c16ctx) createNative() (scenario, int64) {
 	ec := newEthChain()
 	add("lc:genesis-bsc+eth", true, "", "ok", syncGen(6, bc.genesisJSON()), syncGen(2, ec.genesisJSON()))
 	add("lc:genesis-ont-5-peers", true, "", "ok", syncGen(3, ontGenesis(5)))
+	lon := newLondonChain()
+	add("lc:genesis-eth-london", true, "", "ok", syncGen(102, lon.genesisJSON()))
 	h201, h202 := bc.next(0), bc.next(0)
 	a1 := ec.child(ec.genesis, 20, 1)
 	a2 := ec.child(a1, 20, 1)
@@ -412,6 +415,17 @@ func (c *c16ctx) createNative() (scenario, int64) {
 	b1 := ec.child(ec.genesis, 1, 2)
 	b2 := ec.child(b1, 1, 2)
 	add("lc:eth-reorg-b1-b2", true, "", "ok", syncHdr(2, hdrJSON(b1)), syncHdr(2, hdrJSON(b2)))
+	// headers 1000 s after their parent (the difficulty adjustment is clamped at -99) followed by an ordinary one, under the
+	// pre-London and under the London difficulty rule: repeated execution in one process must not depend on what that
+	// process computed before
+	g1 := ec.child(b2, 1000, 4)
+	g2 := ec.child(g1, 15, 4)
+	add("lc:eth-header-gap-1000s", true, "", "ok", syncHdr(2, hdrJSON(g1)))
+	add("lc:eth-header-after-gap", true, "", "ok", syncHdr(2, hdrJSON(g2)))
+	l1 := lon.child(lon.genesis, 1000)
+	l2 := lon.child(l1, 13)
+	add("lc:eth-london-header-gap-1000s", true, "", "ok", syncHdr(102, hdrJSON(l1)))
+	add("lc:eth-london-header-after-gap", true, "", "ok", syncHdr(102, hdrJSON(l2)))
 	// a deposit proven against bsc header 201 (state root = root of the synthetic account trie), then its replay
 	imp := bc.importTx(n, relayer, 201)
 	add("ccm:import-bsc", true, "", "ok", imp(1))
@@ -446,7 +460,7 @@ func (c *c16ctx) createNative() (scenario, int64) {
 	h203 := bc.next(uint64(now + futureDelta))
 	add("wall:bsc-header-dated-now+4s", false, "bsc", "", syncHdr(6, hdrJSON(h203)))
 	now = time.Now().Unix()
-	c1 := ec.childAt(b2, uint64(now+15+futureDelta), 3)
+	c1 := ec.childAt(g2, uint64(now+15+futureDelta), 3)
 	if now+futureDelta+2 > notBefore {
 		notBefore = now + futureDelta + 2
 	}
